@@ -6,7 +6,6 @@ import (
 	"math/rand/v2"
 	"strings"
 
-	"verif/internal/harness"
 	"verif/internal/valgen"
 	"verif/internal/wirereg"
 )
@@ -34,7 +33,7 @@ type binLevel struct {
 	nestDeep   []int
 }
 
-func binLevelOf(b *harness.B, light bool) binLevel {
+func binLevelOf(b *recB, light bool) binLevel {
 	switch {
 	case light:
 		return binLevel{gens: 1, allOffsets: 96, extraOff: 16, flips: 48, multis: 16, randoms: 4, prefixes: 64, nestDeep: []int{31, 32, 33, 40, 1000}}
@@ -54,7 +53,7 @@ func safeEncode(e wirereg.Entry, v any) (enc []byte, ok bool) {
 	return e.Encode(v), true
 }
 
-func runBin(b *harness.B, m *mon, seg segSpec) {
+func runBin(b *recB, m *mon, seg segSpec) {
 	lv := binLevelOf(b, seg.Light)
 	for _, name := range seg.Entries {
 		e, ok := wirereg.ByName(name)
@@ -78,7 +77,7 @@ func runBin(b *harness.B, m *mon, seg segSpec) {
 			// a decoder refusing its own encoder's output is C11's subject; noted, not judged here
 			b.Count("valid_encodings_rejected(observed; judged by C11)", v[1])
 		}
-		if m.skip == 0 && (v == nil || v[0] == 0) {
+		if m.skip == 0 && !m.abandon[name] && (v == nil || v[0] == 0) {
 			b.Inconclusive("no valid encoding of " + name + " was accepted by its decoder: attacks derived from valid encodings are weak")
 		}
 		if a > 0 && seg.Own {
@@ -86,6 +85,7 @@ func runBin(b *harness.B, m *mon, seg segSpec) {
 			b.Count("decode_entry_points_match", 1)
 			b.SetAdd("entry_points_binary", name)
 		}
+		b.checkpoint()
 		for cls, o := range f.outcomes {
 			b.Count("bin_class:"+cls+":value", o[0])
 			b.Count("bin_class:"+cls+":error", o[1])
@@ -96,7 +96,7 @@ func runBin(b *harness.B, m *mon, seg segSpec) {
 
 func cp(b []byte) []byte { return append([]byte(nil), b...) }
 
-func fuzzBinEntry(b *harness.B, f *feeder, e wirereg.Entry, rng *rand.Rand, lv binLevel) {
+func fuzzBinEntry(b *recB, f *feeder, e wirereg.Entry, rng *rand.Rand, lv binLevel) {
 	var encs [][]byte
 	for i := 0; i < lv.gens; i++ {
 		var o *valgen.Opts
